@@ -5,6 +5,7 @@ cd /verif
 for p in $(python3 -c "import json;print(' '.join(c['property_id'] for c in json.load(open('MANIFEST.json'))['checks']))"); do
   start=$(date +%s)
   out=$(./check $p --tier $tier 2>&1); rc=$?
+  [ -n "$VERIF_LOGDIR" ] && mkdir -p "$VERIF_LOGDIR" && echo "$out" > "$VERIF_LOGDIR/$p.log"
   end=$(date +%s)
   nk=$(echo "$out" | grep -c '^KNOWN-FINDING')
   echo "$p rc=$rc $((end-start))s known=$nk $(echo "$out" | grep -E '^\[C' | cut -c1-170)"
